@@ -1,0 +1,28 @@
+//go:build verif
+
+package godi
+
+import "sync/atomic"
+
+// Schedule points for the external verification harness. verifPoint is called
+// at a few places between two steps of the container that are not atomic with
+// respect to each other (no lock is held there); a harness built with the
+// "verif" tag can install a hook and park a goroutine at such a place to
+// explore interleavings that otherwise depend on the scheduler. Without the
+// tag verifPoint is an empty function.
+var verifPointHook atomic.Pointer[func(point string)]
+
+// VerifSetPointHook installs (or, with nil, removes) the hook.
+func VerifSetPointHook(hook func(point string)) {
+	if hook == nil {
+		verifPointHook.Store(nil)
+		return
+	}
+	verifPointHook.Store(&hook)
+}
+
+func verifPoint(point string) {
+	if hook := verifPointHook.Load(); hook != nil {
+		(*hook)(point)
+	}
+}
